@@ -426,9 +426,12 @@ where
 
 impl<T, L: Lock> Drop for SharedObservable<T, L> {
     fn drop(&mut self) {
-        // Only close the state if there are no other clones of this
-        // `SharedObservable`.
-        if Arc::strong_count(&self._num_clones) == 1 {
+        // Give up this clone's token first. `Arc::into_inner` hands the inner
+        // value to exactly one caller: the one that released the very last
+        // token. Only that clone closes the state, also when several clones are
+        // dropped at the same time.
+        let token = std::mem::replace(&mut self._num_clones, Arc::new(()));
+        if Arc::into_inner(token).is_some() {
             // If there are no other clones, obtaining a read lock can't fail.
             L::read_noblock(&self.state).close();
         }
